@@ -89,7 +89,8 @@ acc!(r0_acc_rawthin, r0_acc_clone_rawthin, r0_acc_rel_rawthin, RawThin<Dt, Dt>, 
 acc!(q_acc_swap, q_acc_clone_swap, r1_acc_rel_swap, Swp<Dt>, mk_dt());
 acc!(r2_acc_swapthin, q_acc_clone_swapthin, r0_acc_rel_swapthin, SwpThin<Dt, Dt>, mk_hs_n::<1>());
 // over-aligned payload: the count word is NOT the word right in front of the data (padding is)
-acc!(q_acc_offset_a32, r0_acc_clone_offset_a32, r1_acc_rel_offset_a32, OffsetArc<S33a32>, mk_a32());
+acc!(q_acc_offset_a32, q_acc_clone_offset_a32, r1_acc_rel_offset_a32, OffsetArc<S33a32>, mk_a32());
+acc!(q_acc_union2_a32, r0_acc_clone_union2_a32, r2_acc_rel_union2_a32, U2<S33a32>, mk_a32());
 acc!(r2_acc_arc_a32, r1_acc_clone_arc_a32, r0_acc_rel_arc_a32, Arc<S33a32>, mk_a32());
 acc!(r0_acc_raw_a32, r2_acc_clone_raw_a32, r2_acc_rel_raw_a32, Raw<S33a32>, mk_a32());
 acc!(r2_acc_arc_dyn, r2_acc_clone_arc_dyn, r2_acc_rel_arc_dyn, Arc<dyn Tr>, mk_dyn());
@@ -199,10 +200,70 @@ impl core::hash::Hasher for RecHasher {
         self.0 = self.0.wrapping_add(b.len() as u64);
     }
 }
-#[derive(PartialEq, PartialOrd, Eq, Ord, Hash)]
+// `Plain`'s own comparison / hash / format impls look at the count word of a watched allocation while they run:
+// "never change the count, not even while the borrow is in use"
+static mut SPY_WORD: *const usize = core::ptr::null();
+static mut SPY_CALLS: usize = 0;
+static mut SPY_MIN: usize = usize::MAX;
+static mut SPY_MAX: usize = 0;
+fn spy() {
+    unsafe {
+        if !SPY_WORD.is_null() {
+            let c = *SPY_WORD;
+            SPY_CALLS += 1;
+            if c < SPY_MIN {
+                SPY_MIN = c;
+            }
+            if c > SPY_MAX {
+                SPY_MAX = c;
+            }
+        }
+    }
+}
+fn spy_on(block: usize) {
+    unsafe {
+        SPY_WORD = block as *const usize;
+        SPY_CALLS = 0;
+        SPY_MIN = usize::MAX;
+        SPY_MAX = 0;
+    }
+}
+fn spy_saw_only(c: usize) {
+    unsafe {
+        assert!(SPY_CALLS > 0, "the payload's own impl was never run");
+        assert!(SPY_MIN == c && SPY_MAX == c, "the count differed from the number of owners while a comparison / hash / format was running");
+        SPY_WORD = core::ptr::null();
+    }
+}
 struct Plain(u8);
+impl PartialEq for Plain {
+    fn eq(&self, o: &Plain) -> bool {
+        spy();
+        self.0 == o.0
+    }
+}
+impl Eq for Plain {}
+impl PartialOrd for Plain {
+    fn partial_cmp(&self, o: &Plain) -> Option<core::cmp::Ordering> {
+        spy();
+        self.0.partial_cmp(&o.0)
+    }
+}
+impl Ord for Plain {
+    fn cmp(&self, o: &Plain) -> core::cmp::Ordering {
+        spy();
+        self.0.cmp(&o.0)
+    }
+}
+impl core::hash::Hash for Plain {
+    fn hash<H: core::hash::Hasher>(&self, h: &mut H) {
+        spy();
+        h.write_u8(self.0)
+    }
+}
 impl core::fmt::Debug for Plain {
     fn fmt(&self, f: &mut core::fmt::Formatter) -> core::fmt::Result {
+        spy();
         Ok(())
     }
 }
@@ -216,6 +277,7 @@ h!(q_neutral_compare_hash_deref, {
     let a = Arc::new(Plain(kani::any()));
     let other = Arc::new(Plain(kani::any()));
     let (st, h) = enter::<Arc<Plain>>(a, 0);
+    spy_on(st.block);
     let _ = h == other;
     let _ = h != other;
     let _ = h < other;
@@ -223,6 +285,7 @@ h!(q_neutral_compare_hash_deref, {
     let _ = h.partial_cmp(&other);
     let mut hs = RecHasher(0);
     h.hash(&mut hs);
+    spy_saw_only(st.c);
     let _ = (*h).0;
     let _ = Arc::as_ptr(&h);
     let _ = h.heap_ptr();
@@ -256,17 +319,43 @@ h!(q_neutral_thin_compare_hash, {
     st.covers();
     forget(h);
 });
+h!(q_neutral_thin_compare_hash_inside, {
+    use core::hash::Hash;
+    let a = Arc::from_header_and_iter(HeaderWithLength::new(Plain(kani::any()), 1), (0..1).map(|_| Plain(kani::any())));
+    let b = Arc::from_header_and_iter(HeaderWithLength::new(Plain(kani::any()), 1), (0..1).map(|_| Plain(kani::any())));
+    let tb = Arc::into_thin(b);
+    let blk = a.heap_ptr() as usize;
+    let w = ManuallyDrop::new(unsafe { core::ptr::read(&a) });
+    let t = Arc::into_thin(a);
+    let c: usize = kani::any();
+    kani::assume(c >= 1 && c <= MAXC);
+    set_count(&w, c);
+    spy_on(blk);
+    let _ = t == tb;
+    let _ = tb == t;
+    let _ = t.partial_cmp(&tb);
+    let _ = t.cmp(&tb);
+    let mut hs = RecHasher(0);
+    t.hash(&mut hs);
+    spy_saw_only(c);
+    assert!(raw_count(&w) == c && ThinArc::strong_count(&tb) == 1);
+    forget(t);
+});
 h!(q_neutral_offset_union_compare, {
     let a = Arc::new(Plain(kani::any()));
     let other = Arc::into_raw_offset(Arc::new(Plain(kani::any())));
     let (st, h) = enter::<OffsetArc<Plain>>(a, 0);
+    spy_on(st.block);
     let _ = h == other;
     let _ = h != other;
+    spy_saw_only(st.c);
     let _ = (*h).0;
     st.alive(st.c);
     let u = U1::<Plain>::from_arc(Arc::from_raw_offset(h));
     let v = ArcUnion::<Plain, Oth>::from_first(Arc::from_raw_offset(other));
+    spy_on(st.block);
     let _ = u.0 == v;
+    spy_saw_only(st.c);
     let _ = ArcUnion::ptr_eq(&u.0, &v);
     st.alive(st.c);
     assert!(ArcUnion::strong_count(&v) == 1);
@@ -283,7 +372,9 @@ h!(r0_neutral_fmt, {
     }
     let a = Arc::new(Plain(kani::any()));
     let (st, h) = enter::<Arc<Plain>>(a, 0);
+    spy_on(st.block);
     let _ = core::fmt::write(&mut Sink, format_args!("{:?}", h));
+    spy_saw_only(st.c);
     st.alive(st.c);
     st.covers();
     forget(h);
